@@ -31,6 +31,32 @@ def ctl_sweep(job):
         C["base_histories"] = C.get("base_histories", 0) + 1
         k = 0
         for mode in job.get("modes", ["pause", "cancel"]):
+            if mode == "pause_then_cancel":
+                # two different requests in one history: pause at every position, then cancel after 0, 1 or 2 further
+                # reports (a with-items task may by then rest `paused` between items while other actions still run)
+                for pos in range(1, len(base) + 1):
+                    for gap in range(3):
+                        k += 1
+                        if only and k != only[1]:
+                            continue
+                        run = explore.make_run(case, workloads.monitors(job.get("flags")), model=m)
+                        explore.play_script(run, base[:pos])
+                        run.request(["pausing", "paused"][(pos + gap) % 2])
+                        pol = explore.Policy(pseed=h64(pseed, pos, gap), lazy_pct=0)
+                        for _ in range(gap):
+                            if run.inflight:
+                                run.complete(pol.pick(run))
+                                if gap == 2:
+                                    run.poll()
+                        run.request(["canceling", "canceled"][gap % 2])
+                        C["insertion_points"] = C.get("insertion_points", 0) + 1
+                        C["pause_then_cancel_runs"] = C.get("pause_then_cancel_runs", 0) + 1
+                        explore.run_free(run, explore.Policy(pseed=pseed, lazy_pct=job.get("lazy", 30)), start=False)
+                        run.finish()
+                        out["evaluations"] += 1
+                        workloads.collect(out, job, run, m, (seed, k), nontriv_fn,
+                                          extra=dict(insert=dict(mode=mode, pos=pos, gap=gap)))
+                continue
             for pos in range(1, len(base) + 1):
                 for variant in range(3):
                     k += 1
